@@ -260,3 +260,852 @@ def w_fwd2d(S, item):
     for f in S.take_findings():
         res['findings'].append(f.as_dict())
     return res
+
+
+# ------------------------------------------------------------- inverse 1-D
+def pyramid_bases_1d(nb, c, lens):
+    """bases for (yl, [yh_1 .. yh_J]) of the shapes the forward transform produces"""
+    J = len(lens) - 1
+    bl, yl = base_tensor('yl', nb, c, [lens[J]])
+    hs = []
+    for j in range(J):
+        bh, yh = base_tensor('yh%d' % (j + 1), nb, c, [lens[j + 1]])
+        hs.append((bh, yh))
+    return (bl, yl), hs
+
+
+def expected_inv1d(bl, hs, lens, L, mode, roles, present):
+    """pywt.waverec as tables: list of (base, table) terms for each (n, c) (same for all)"""
+    J = len(lens) - 1
+    terms = [(bl, AxisTable.identity((bl.id, 0), lens[J]))]
+    for j in range(J - 1, -1, -1):
+        m = lens[j + 1]
+        cur_len = len(terms[0][1])
+        if cur_len == m + 1:
+            terms = [(b, spec.crop_table(t, m)) for b, t in terms]
+        elif cur_len != m:
+            return None
+        rule = spec.idwt_rule(m, L, mode)
+        new = [(b, spec.apply_rule(t, rule, roles[0])) for b, t in terms]
+        if present[j]:
+            bh = hs[j][0]
+            new.append((bh, spec.apply_rule(AxisTable.identity((bh.id, 0), m), rule, roles[1])))
+        terms = new
+    return terms
+
+
+def w_inv1d(S, item):
+    mode, L, N, J, nb, c, none_mask = item
+    res = {'cmp': 1, 'diff': 0, 'findings': [], 'sample': None}
+    lens = level_lengths(N, L, mode, J)
+    cond = size_cond(lens[:-1], L, mode)
+    if none_mask and cond == 'Ne>=L':
+        cond += ',odd-level' if any(n % 2 for n in lens[:-1]) else ',even-levels'
+    inst = S.construct(T1, 'DWT1DInverse', wave=wname(L), mode=mode)
+    (bl, yl), hs = pyramid_bases_1d(nb, c, lens)
+    present = [not (none_mask >> j) & 1 for j in range(J)]
+    highs = ArgList([h[1] if p else None for h, p in zip(hs, present)])
+    highs.label = 'highpass list'
+    o = S.run(S.method(inst, 'forward'), (yl, highs))
+    construct = 'DWT1DInverse.forward' + ('[None level]' if none_mask else '')
+    if o.kind != 'ok':
+        res['diff'] = 1
+        res['findings'].append(exc_finding(S, o, construct, '%s:%s' % (mode, cond)))
+        return res
+    y = o.value
+    roles = (role(L, 'rec_lo'), role(L, 'rec_hi'))
+    exp_terms = expected_inv1d(bl, hs, lens, L, mode, roles, present)
+    problems = []
+    if exp_terms is None:
+        raise AnalysisError('spec', 'reference pyramid inconsistent for %r' % (item,))
+    n_ref = len(exp_terms[0][1])
+    if not isinstance(y, DataT) or y.ndim != 3 or list(y.shape[:2]) != [nb, c]:
+        problems.append(('shape', 'result has shape %s' % (list(getattr(y, 'shape', [])),)))
+    else:
+        n_cmp = n_ref
+        if none_mask:
+            n_cmp = N                       # "on the signal's extent"
+            if y.shape[2] < N:
+                problems.append(('shape', 'result length %d is shorter than the signal extent %d' % (y.shape[2], N)))
+        elif y.shape[2] != n_ref:
+            problems.append(('shape', 'result length %d, reference %d' % (y.shape[2], n_ref)))
+        if not problems:
+            yc = y[:, :, :n_cmp] if y.shape[2] != n_cmp else y
+            exp = {}
+            for n in range(nb):
+                for ci in range(c):
+                    exp[(n, ci)] = tuple(Term(b, (n, ci), [spec.crop_table(t, n_cmp)]) for b, t in exp_terms)
+            problems += compare_cells_multi(yc, exp, 'reconstruction')
+    if problems:
+        res['diff'] = 1
+        what, msg = problems[0]
+        res['findings'].append(finding('NF', construct, '%s:%s:%s' % (mode, cond, _coarse(what)),
+                                       'mode=%s L=%d N=%d J=%d none_mask=%s: %s' % (mode, L, N, J, bin(none_mask), msg),
+                                       anchor=anchor(S, LL, 'sfb1d'), detail={'config': list(item), 'all': problems[:5]}))
+    else:
+        res['sample'] = {'config': dict(mode=mode, L=L, N=N, J=J, none_mask=none_mask), 'out_len': int(y.shape[2])}
+    for f in S.take_findings():
+        res['findings'].append(f.as_dict())
+    return res
+
+
+def compare_cells_multi(actual, exp_cells, label):
+    out = []
+    for idx, exp in exp_cells.items():
+        act = actual.cells[idx]
+        if cells_equal(act, exp):
+            continue
+        ca, ce = canon_cell(act), canon_cell(exp)
+        ka = {(t[0], t[1]): t for t in ca}
+        ke = {(t[0], t[1]): t for t in ce}
+        if len(ka) == len(ca) and len(ke) == len(ce) and set(ka) == set(ke):
+            done = False
+            for k in ke:
+                if ka[k] != ke[k]:
+                    for ax, (ta, te) in enumerate(zip(ka[k][2], ke[k][2])):
+                        if ta != te:
+                            what, msg = describe_table_diff(ta, te)
+                            out.append((what, '%s cell %s, input %s, axis %d: %s' % (label, idx, k, ax, msg)))
+                            done = True
+                            break
+                    if done:
+                        break
+            if not done:
+                out.append(('values', '%s cell %s differs' % (label, idx)))
+        else:
+            extra = set(ka) - set(ke)
+            missing = set(ke) - set(ka)
+            out.append(('structure', '%s cell %s: depends on %d inputs, reference %d (extra %s, missing %s)'
+                        % (label, idx, len(ka), len(ke), sorted(extra)[:2], sorted(missing)[:2])))
+        if len(out) >= 3:
+            break
+    return out
+
+
+# ------------------------------------------------------------- inverse 2-D
+def w_inv2d(S, item):
+    mode, kind, Lc, Lr, H, W, J, nb, c, none_mask = item
+    res = {'cmp': 1, 'diff': 0, 'findings': [], 'sample': None}
+    lh_ = level_lengths(H, Lc, mode, J)
+    lw_ = level_lengths(W, Lr, mode, J)
+    conds = (size_cond(lh_[:-1], Lc, mode), size_cond(lw_[:-1], Lr, mode))
+    cond = ('Ne<L' if 'Ne<L' in conds else 'Ne>=L') if mode == 'periodization' else ('N<L' if 'N<L' in conds else 'N>=L')
+    if none_mask and cond == 'Ne>=L':
+        cond += ',odd-level' if any(n % 2 for n in lh_[:-1] + lw_[:-1]) else ',even-levels'
+    wave, roles = wave_spec_rec(kind, Lc, Lr)
+    inst = S.construct(T2, 'DWTInverse', wave=wave, mode=mode)
+    bl, yl = base_tensor('yl', nb, c, [lh_[J], lw_[J]])
+    hs = []
+    for j in range(J):
+        hs.append(base_tensor('yh%d' % (j + 1), nb, c, [lh_[j + 1], lw_[j + 1]], extra_e=(3,)))
+    present = [not (none_mask >> j) & 1 for j in range(J)]
+    highs = ArgList([h[1] if p else None for h, p in zip(hs, present)])
+    highs.label = 'highpass list'
+    o = S.run(S.method(inst, 'forward'), (yl, highs))
+    construct = 'DWTInverse.forward' + ('[4-filter]' if kind == 'tuple4' else '') + ('[None level]' if none_mask else '')
+    if o.kind != 'ok':
+        res['diff'] = 1
+        res['findings'].append(exc_finding(S, o, construct, '%s:%s' % (mode, cond)))
+        return res
+    y = o.value
+    # reference: pywt.waverec2
+    terms = [(bl, None, AxisTable.identity((bl.id, 0), lh_[J]), AxisTable.identity((bl.id, 1), lw_[J]))]
+    for j in range(J - 1, -1, -1):
+        mh, mw = lh_[j + 1], lw_[j + 1]
+        if len(terms[0][2]) == mh + 1:
+            terms = [(b, k, spec.crop_table(th, mh), tw) for b, k, th, tw in terms]
+        if len(terms[0][3]) == mw + 1:
+            terms = [(b, k, th, spec.crop_table(tw, mw)) for b, k, th, tw in terms]
+        if len(terms[0][2]) != mh or len(terms[0][3]) != mw:
+            raise AnalysisError('spec', 'reference pyramid inconsistent for %r' % (item,))
+        rh = spec.idwt_rule(mh, Lc, mode)
+        rw = spec.idwt_rule(mw, Lr, mode)
+        new = [(b, k, spec.apply_rule(th, rh, roles['col'][0]), spec.apply_rule(tw, rw, roles['row'][0]))
+               for b, k, th, tw in terms]
+        if present[j]:
+            bh = hs[j][0]
+            ih = AxisTable.identity((bh.id, 0), mh)
+            iw = AxisTable.identity((bh.id, 1), mw)
+            # bands: 0 = LH (detail along H), 1 = HL (detail along W), 2 = HH
+            for k, (fh, fw) in enumerate(((1, 0), (0, 1), (1, 1))):
+                new.append((bh, k, spec.apply_rule(ih, rh, roles['col'][fh]), spec.apply_rule(iw, rw, roles['row'][fw])))
+        terms = new
+    nh_ref, nw_ref = len(terms[0][2]), len(terms[0][3])
+    problems = []
+    if not isinstance(y, DataT) or y.ndim != 4 or list(y.shape[:2]) != [nb, c]:
+        problems.append(('shape', 'result has shape %s' % (list(getattr(y, 'shape', [])),)))
+    else:
+        ch, cw = nh_ref, nw_ref
+        if none_mask:
+            ch, cw = H, W
+            if y.shape[2] < H or y.shape[3] < W:
+                problems.append(('shape', 'result %s is smaller than the signal extent %s' % (list(y.shape[2:]), [H, W])))
+        elif list(y.shape[2:]) != [nh_ref, nw_ref]:
+            problems.append(('shape', 'result size %s, reference %s' % (list(y.shape[2:]), [nh_ref, nw_ref])))
+        if not problems:
+            yc = y[:, :, :ch, :cw]
+            exp = {}
+            for n in range(nb):
+                for ci in range(c):
+                    exp[(n, ci)] = tuple(Term(b, (n, ci) if k is None else (n, ci, k),
+                                              [spec.crop_table(th, ch), spec.crop_table(tw, cw)])
+                                         for b, k, th, tw in terms)
+            problems += compare_cells_multi(yc, exp, 'reconstruction')
+    if problems:
+        res['diff'] = 1
+        what, msg = problems[0]
+        res['findings'].append(finding('NF', construct, '%s:%s:%s' % (mode, cond, _coarse(what)),
+                                       'mode=%s filters=%s Lcol=%d Lrow=%d HxW=%dx%d J=%d none_mask=%s: %s'
+                                       % (mode, kind, Lc, Lr, H, W, J, bin(none_mask), msg),
+                                       anchor=anchor(S, LL, 'SFB2D', 'forward'),
+                                       detail={'config': list(item), 'all': problems[:5]}))
+    else:
+        res['sample'] = {'config': dict(mode=mode, filters=kind, Lcol=Lc, Lrow=Lr, H=H, W=W, J=J, none_mask=none_mask),
+                         'out_size': [int(y.shape[2]), int(y.shape[3])]}
+    for f in S.take_findings():
+        res['findings'].append(f.as_dict())
+    return res
+
+
+# ------------------------------------------------- numeric evaluation of tables
+def tap_values(wavelet_name):
+    """tap symbol -> value for one PyWavelets wavelet (table data read from the installed package)"""
+    import pywt
+    w = pywt.Wavelet(wavelet_name)
+    L = w.dec_len
+    vals = {}
+    for which in ('dec_lo', 'dec_hi', 'rec_lo', 'rec_hi'):
+        arr = getattr(w, which)
+        for i, v in enumerate(arr):
+            vals[(role(L, which), i)] = float(v)
+    return L, vals
+
+
+def table_matrix(tb, n_in, vals):
+    M = np.zeros((len(tb.forms), n_in))
+    for k, f in enumerate(tb.forms):
+        for (mono, p), c in f.d.items():
+            v = float(c)
+            for s in mono:
+                v *= vals[s]
+            M[k, p] += v
+    return M
+
+
+def cell_operator(cell, base, bchan, in_sizes, vals):
+    """dense numeric operator of one cell restricted to input slice base[bchan]"""
+    out = None
+    for t in cell:
+        if t.base.id != base.id or t.bchan != tuple(bchan):
+            return None
+        mats = []
+        for tb in t.tables:
+            mats.append(table_matrix(tb, in_sizes[tb.base_axis[1]], vals))
+        m = mats[0] * float(t.coef)
+        for mm in mats[1:]:
+            m = np.kron(m, mm)
+        out = m if out is None else out + m
+    return out
+
+
+def ref_compose_error_1d(N, L, mode, J, vals):
+    """|S*A - I| of PyWavelets' own operators (index rules evaluated numerically) on the extent"""
+    lens = [N]
+    mats = []
+    cur = np.eye(N)
+    his = []
+    for j in range(J):
+        rule = spec.dwt_rule(lens[-1], L, mode)
+        A0 = np.zeros((len(rule), lens[-1]))
+        A1 = np.zeros((len(rule), lens[-1]))
+        for k, row in enumerate(rule):
+            for jj, i in row:
+                A0[k, i] += vals[(role(L, 'dec_lo'), jj)]
+                A1[k, i] += vals[(role(L, 'dec_hi'), jj)]
+        his.append(A1 @ cur)
+        cur = A0 @ cur
+        lens.append(len(rule))
+    a = cur
+    for j in range(J - 1, -1, -1):
+        m = lens[j + 1]
+        if a.shape[0] == m + 1:
+            a = a[:m]
+        rule = spec.idwt_rule(m, L, mode)
+        S0 = np.zeros((len(rule), m))
+        S1 = np.zeros((len(rule), m))
+        for n, row in enumerate(rule):
+            for t, k in row:
+                S0[n, k] += vals[(role(L, 'rec_lo'), t)]
+                S1[n, k] += vals[(role(L, 'rec_hi'), t)]
+        a = S0 @ a + S1 @ his[j]
+    return float(np.abs(a[:N] - np.eye(N)).max()) if a.shape[0] >= N else float('inf')
+
+
+# ------------------------------------------------ C02: synthesis o analysis = I
+def w_compose(S, item):
+    dim, mode, L, size, J, wavelets = item
+    res = {'cmp': 0, 'diff': 0, 'findings': [], 'sample': None}
+    if dim == 1:
+        N = size
+        f = S.construct(T1, 'DWT1DForward', J=J, wave=wname(L), mode=mode)
+        g = S.construct(T1, 'DWT1DInverse', wave=wname(L), mode=mode)
+        b, x = base_tensor('x', 1, 1, [N])
+        lens = level_lengths(N, L, mode, J)
+        cond = size_cond(lens[:-1], L, mode)
+        in_sizes = [N]
+    else:
+        H, W = size
+        f = S.construct(T2, 'DWTForward', J=J, wave=wname(L), mode=mode)
+        g = S.construct(T2, 'DWTInverse', wave=wname(L), mode=mode)
+        b, x = base_tensor('x', 1, 1, [H, W])
+        lh_ = level_lengths(H, L, mode, J)
+        lw_ = level_lengths(W, L, mode, J)
+        conds = (size_cond(lh_[:-1], L, mode), size_cond(lw_[:-1], L, mode))
+        cond = ('Ne<L' if 'Ne<L' in conds else 'Ne>=L') if mode == 'periodization' else ('N<L' if 'N<L' in conds else 'N>=L')
+        in_sizes = [H, W]
+    construct = 'DWT%sInverse(DWT%sForward(x))' % (('1D', '1D') if dim == 1 else ('', ''))
+    o = S.run(S.method(f, 'forward'), x)
+    if o.kind == 'ok':
+        yl, yh = o.value
+        o = S.run(S.method(g, 'forward'), (yl, yh))
+    res['cmp'] = 1
+    if o.kind != 'ok':
+        if o.kind == 'raises' and mode == 'reflect' and cond == 'N<L' and o.exc.name == 'RuntimeError':
+            res['sample'] = {'config': list(item[:5]), 'outcome': 'raises (allowed)'}
+            return res
+        res['diff'] = 1
+        res['findings'].append(exc_finding(S, o, construct, '%s:%s' % (mode, cond)))
+        return res
+    y = o.value
+    ext = list(y.shape[2:])
+    problems = []
+    for a, (got, want) in enumerate(zip(ext, in_sizes)):
+        if got not in (want, want + 1) or (got == want + 1 and want % 2 == 0):
+            problems.append(('extent', 'reconstruction has size %s for input size %s (allowed: N, or N+1 for odd N)'
+                             % (ext, in_sizes)))
+            break
+    worst = None
+    if not problems:
+        n_in = int(np.prod(in_sizes))
+        for wn in wavelets:
+            Lw, vals = tap_values(wn)
+            M = cell_operator(y.cells[0, 0], b, (0, 0), in_sizes, vals)
+            res['cmp'] += 1
+            if M is None:
+                problems.append(('channel', 'reconstruction reads another input slice'))
+                break
+            # rows of the original extent
+            if dim == 1:
+                rows = np.arange(in_sizes[0])
+            else:
+                rows = (np.arange(in_sizes[0])[:, None] * ext[1] + np.arange(in_sizes[1])[None, :]).ravel()
+            err = float(np.abs(M[rows] - np.eye(n_in)).max())
+            if dim == 1:
+                ref = ref_compose_error_1d(in_sizes[0], L, mode, J, vals)
+            else:
+                ref = max(ref_compose_error_1d(in_sizes[0], L, mode, J, vals),
+                          ref_compose_error_1d(in_sizes[1], L, mode, J, vals))
+                ref = 2 * ref + ref * ref
+            tol = max(1e-9, 1.5 * ref + 1e-12)
+            if worst is None or err > worst[1]:
+                worst = (wn, err, ref)
+            if err > tol:
+                problems.append(('not-identity', 'wavelet %s: max |S*A - I| = %.3g on the original extent '
+                                 '(PyWavelets\' own operators: %.3g)' % (wn, err, ref)))
+                break
+    if problems:
+        res['diff'] = 1
+        what, msg = problems[0]
+        res['findings'].append(finding('PR', construct, '%s:%s:%s' % (mode, cond, what),
+                                       'mode=%s L=%d size=%s J=%d: %s' % (mode, L, size, J, msg),
+                                       anchor=anchor(S, LL, 'sfb1d'), detail={'config': list(item[:5])}))
+    else:
+        res['sample'] = {'config': dict(dim=dim, mode=mode, L=L, size=size, J=J), 'wavelets': list(wavelets),
+                         'worst': worst}
+    for fi in S.take_findings():
+        res['findings'].append(fi.as_dict())
+    return res
+
+
+# ------------------------------------------------------- adjoints (C05, C17)
+def transpose_table(tb, n_in, new_base_axis):
+    acc = [dict() for _ in range(n_in)]
+    for k, f in enumerate(tb.forms):
+        for (mono, p), c in f.d.items():
+            acc[p][(mono, k)] = c
+    return AxisTable(new_base_axis, [Form(d) for d in acc])
+
+
+def adjoint_cells(outputs, cots, in_base):
+    """cells (dict bchan -> tuple(Term)) of J^T applied to cotangent bases `cots`, for input base in_base.
+    outputs: list of DataT (forward results over base inputs); cots: list of Base with the outputs' dims."""
+    in_s = [s for k, s in in_base.dims if k == 'S']
+    in_e = [s for k, s in in_base.dims if k == 'E']
+    res = {idx: [] for idx in itertools.product(*[range(s) for s in in_e])}
+    cache = {}
+    for out, cot in zip(outputs, cots):
+        for idx in np.ndindex(*out.cells.shape):
+            for t in out.cells[idx]:
+                if t.base.id != in_base.id:
+                    continue
+                tabs = [None] * len(in_s)
+                for s_out, tb in enumerate(t.tables):
+                    a = tb.base_axis[1]
+                    key = (id(tb), cot.id, s_out)
+                    tt = cache.get(key)
+                    if tt is None:
+                        tt = (transpose_table(tb, in_s[a], (cot.id, s_out)), tb)
+                        cache[key] = tt
+                    tabs[a] = tt[0]
+                if any(x is None for x in tabs):
+                    raise AnalysisError('adjoint', 'a forward term does not cover every spatial axis of its input')
+                res[t.bchan].append(Term(cot, idx, tabs, t.coef))
+    return {k: tuple(v) for k, v in res.items()}
+
+
+def flatten_out(v):
+    if isinstance(v, (tuple, list)):
+        out = []
+        for x in v:
+            out.extend(flatten_out(x))
+        return out
+    return [v]
+
+
+def check_backward(S, rec, diff_slots, needs, margin, label):
+    """Run rec.cls.backward on fresh cotangents and compare with the transposed forward operator.
+    rec: ApplyRecord whose tensor inputs are base tensors.  Returns list of (slot, what, msg)."""
+    from ..pyinterp import StaticMethod, PyFunc
+    outs = flatten_out(rec.out)
+    cots, cot_ts = [], []
+    for i, o in enumerate(outs):
+        if not isinstance(o, DataT):
+            raise AnalysisError('adjoint', 'forward output %d is not a tensor' % i)
+        bc = Base('g%d' % i, o.dims, dtype=o.dtype)
+        cots.append(bc)
+        cot_ts.append(bc.tensor(origin='arg'))
+    bwd = rec.cls.lookup('backward')
+    if isinstance(bwd, StaticMethod):
+        bwd = bwd.func
+    if not isinstance(bwd, PyFunc):
+        raise AnalysisError('anchor-missing', '%s.backward' % rec.cls.name)
+    S.interp.nograd += 1
+    try:
+        o = S.run(bwd, rec.ctx, *cot_ts)
+    finally:
+        S.interp.nograd = 0
+    problems = []
+    if o.kind != 'ok':
+        e = o.exc
+        problems.append((None, 'raises' if o.kind == 'raises' else e.rule,
+                         'backward raises %s: %s' % (getattr(e, 'name', e.__class__.__name__), str(getattr(e, 'msg', e))[:140]),
+                         getattr(e, 'loc', None)))
+        return problems
+    grads = o.value
+    if not isinstance(grads, tuple):
+        grads = (grads,)
+    n_in = len(rec.args)
+    if len(grads) < n_in:
+        problems.append((None, 'arity', 'backward returns %d gradients for %d forward inputs' % (len(grads), n_in), None))
+        return problems
+    for i, g in enumerate(grads):
+        if i >= n_in:
+            if g is not None:
+                problems.append((i, 'arity', 'extra gradient slot %d is not None' % i, None))
+            continue
+        a = rec.args[i]
+        if not isinstance(a, DataT) and not hasattr(a, 'arr') and g is not None:
+            problems.append((i, 'arity', 'gradient for non-tensor input %d is not None' % i, None))
+    for i in diff_slots:
+        if not needs[i]:
+            continue
+        g = grads[i]
+        a = rec.args[i]
+        base = a.base_of
+        if g is None:
+            problems.append((i, 'missing-gradient', 'input %d requires grad but backward returns None for it' % i, None))
+            continue
+        if not isinstance(g, DataT):
+            problems.append((i, 'type', 'gradient %d is %s' % (i, type(g).__name__), None))
+            continue
+        if list(g.shape) != list(a.shape):
+            problems.append((i, 'shape', 'gradient %d has shape %s, input has %s' % (i, list(g.shape), list(a.shape)), None))
+            continue
+        exp = adjoint_cells(outs, cots, base)
+        diffs = []
+        for idx, e in exp.items():
+            act = g.cells[idx]
+            if cells_equal(act, e):
+                continue
+            diffs.append(classify_adj(act, e, margin))
+            if len(diffs) >= 2:
+                break
+        if diffs:
+            problems.append((i, diffs[0][0], 'gradient of input %d is not J^T g: %s' % (i, diffs[0][1]), None))
+    return problems
+
+
+def classify_adj(act, exp, margin):
+    ca, ce = canon_cell(act), canon_cell(exp)
+    ka = {(t[0], t[1]): t for t in ca}
+    ke = {(t[0], t[1]): t for t in ce}
+    if len(ka) != len(ca) or len(ke) != len(ce) or set(ka) != set(ke):
+        return ('structure', 'depends on %d cotangent slices, the adjoint on %d' % (len(ca), len(ce)))
+    worst = None
+    for k in ke:
+        if ka[k] == ke[k]:
+            continue
+        for ax, (ta, te) in enumerate(zip(ka[k][2], ke[k][2])):
+            if ta == te:
+                continue
+            if len(ta) != len(te):
+                return ('length', 'axis %d has %d positions, adjoint %d' % (ax, len(ta), len(te)))
+            n = len(te)
+            rows = [r for r in range(n) if ta.forms[r] != te.forms[r]]
+            inner = [r for r in rows if margin <= r < n - margin]
+            if inner:
+                what, msg = describe_table_diff(ta, te)
+                return ('interior', 'axis %d: %s' % (ax, msg))
+            worst = ('boundary', 'axis %d differs only within %d samples of the ends (rows %s): '
+                     'the fold of the boundary extension is missing' % (ax, margin, rows[:6]))
+    return worst or ('values', 'cells differ')
+
+
+def w_adj(S, item):
+    """C05: one Function, one mode/size, one subset of inputs requiring grad."""
+    fn, mode, L, size, mask = item
+    res = {'cmp': 1, 'diff': 0, 'findings': [], 'sample': None}
+    S.libs.apply_log = []
+    if fn == 'AFB1D':
+        inst = S.construct(T1, 'DWT1DForward', J=1, wave=wname(L), mode=mode)
+        b, x = base_tensor('x', 1, 2, [size], requires_grad=bool(mask & 1))
+        args = (x,)
+        slots = [0]
+        n_eff = size
+    elif fn == 'AFB2D':
+        inst = S.construct(T2, 'DWTForward', J=1, wave=wname(L), mode=mode)
+        b, x = base_tensor('x', 1, 2, list(size), requires_grad=bool(mask & 1))
+        args = (x,)
+        slots = [0]
+        n_eff = min(size)
+    elif fn == 'SFB1D':
+        inst = S.construct(T1, 'DWT1DInverse', wave=wname(L), mode=mode)
+        bl, yl = base_tensor('yl', 1, 2, [size], requires_grad=bool(mask & 1))
+        bh, yh = base_tensor('yh', 1, 2, [size], requires_grad=bool(mask & 2))
+        args = ((yl, [yh]),)
+        slots = [0, 1]
+        n_eff = 2 * size
+    elif fn == 'SFB2D':
+        inst = S.construct(T2, 'DWTInverse', wave=wname(L), mode=mode)
+        bl, yl = base_tensor('yl', 1, 2, list(size), requires_grad=bool(mask & 1))
+        bh, yh = base_tensor('yh', 1, 2, list(size), extra_e=(3,), requires_grad=bool(mask & 2))
+        args = ((yl, [yh]),)
+        slots = [0, 1]
+        n_eff = 2 * min(size)
+    else:
+        raise ValueError(fn)
+    if mode == 'periodization':
+        if fn.startswith('AFB'):
+            sizes = [size] if fn == 'AFB1D' else list(size)
+            cond = ('Ne<L' if any(s + s % 2 < L for s in sizes) else 'Ne>=L') + (',odd' if any(s % 2 for s in sizes) else ',even')
+        else:
+            cond = 'Ne<L' if n_eff < L else 'Ne>=L'
+    else:
+        cond = 'any'
+    construct = '%s.backward' % fn
+    o = S.run(S.method(inst, 'forward'), *args)
+    if o.kind != 'ok':
+        if o.kind == 'raises' and mode == 'reflect' and o.exc.name == 'RuntimeError':
+            res['sample'] = {'config': list(item), 'outcome': 'forward raises (allowed: reflect, short signal)'}
+            return res
+        res['diff'] = 1
+        res['findings'].append(exc_finding(S, o, construct, '%s:%s:forward' % (mode, cond)))
+        return res
+    recs = [r for r in S.libs.apply_log if r.cls.name == fn]
+    if len(recs) != 1:
+        raise AnalysisError('anchor-missing', 'expected exactly one %s.apply on the module path, saw %d' % (fn, len(recs)))
+    rec = recs[0]
+    for i in slots:
+        if not isinstance(rec.args[i], DataT) or rec.args[i].base_of is None:
+            raise AnalysisError('adjoint', '%s input %d is not passed through unchanged by the module' % (fn, i))
+    needs = rec.ctx.needs_input_grad
+    problems = check_backward(S, rec, slots, needs, L, construct)
+    for slot, what, msg, loc in problems:
+        res['diff'] = 1
+        d = finding('ADJ' if what in ('boundary', 'interior', 'values', 'structure', 'length') else 'BWD',
+                    construct, '%s:%s:%s%s' % (mode, cond, what, '' if slot is None else ':slot%d' % slot),
+                    'mode=%s L=%d size=%s requires_grad=%s: %s' % (mode, L, size, bin(mask), msg),
+                    anchor=anchor(S, LL, fn, 'backward'), detail={'config': list(item)})
+        if loc is not None:
+            d['file'], d['line'], d['function'], d['statement'] = loc.file, loc.line, loc.func, loc.text
+        res['findings'].append(d)
+    if not problems:
+        res['sample'] = {'config': dict(fn=fn, mode=mode, L=L, size=size, requires_grad_mask=mask),
+                         'verdict': 'backward == transpose(forward) cell by cell'}
+    for fi in S.take_findings():
+        res['findings'].append(fi.as_dict())
+    return res
+
+
+# ----------------------------------------- C14 / C19: sibling implementations
+def _mode_cond(mode, sizes, Ls):
+    if mode in ('periodization', 'per'):
+        return 'Ne<L' if any(n + n % 2 < L for n, L in zip(sizes, Ls)) else 'Ne>=L'
+    return 'N<L' if any(n < L for n, L in zip(sizes, Ls)) else 'N>=L'
+
+
+def same_tensor(a, b):
+    """two abstract tensors denote the same values (shape, cells)"""
+    if not isinstance(a, DataT) or not isinstance(b, DataT):
+        return ('type', 'results are %s and %s' % (type(a).__name__, type(b).__name__))
+    if list(a.shape) != list(b.shape):
+        return ('shape', 'shapes %s and %s' % (list(a.shape), list(b.shape)))
+    if a.cells.shape != b.cells.shape:
+        return ('shape', 'dim typing differs')
+    for idx in np.ndindex(*a.cells.shape):
+        if not cells_equal(a.cells[idx], b.cells[idx]):
+            pr = compare_cells_multi(a, {idx: b.cells[idx]}, 'subband')
+            return pr[0] if pr else ('values', 'cell %s differs' % (idx,))
+    return None
+
+
+def user_filts(n, Lc, Lr):
+    if n == 2:
+        return [user_filter('0', Lc), user_filter('1', Lc)]
+    return [user_filter('0', Lc), user_filter('1', Lc), user_filter('2', Lr), user_filter('3', Lr)]
+
+
+def w_sibling(S, item):
+    """which in {'afb-module', 'sfb-module', 'afb-nonsep', 'sfb-nonsep'}"""
+    which, mode, nf, Lc, Lr, H, W = item
+    if nf == 2:
+        Lr = Lc
+    res = {'cmp': 1, 'diff': 0, 'findings': [], 'sample': None}
+    cond = _mode_cond(mode, (H, W), (Lc, Lr))
+    nb, c = 1, 2
+    afb2d = S.get(LL, 'afb2d')
+    sfb2d = S.get(LL, 'sfb2d')
+    if which == 'afb-module':
+        b, x = base_tensor('x', nb, c, [H, W])
+        inst = S.construct(T2, 'DWTForward', J=1, wave=tuple(user_filts(nf, Lc, Lr)), mode=mode)
+        o1 = S.run(S.method(inst, 'forward'), x)
+        o2 = S.run(afb2d, x, user_filts(nf, Lc, Lr), mode)
+        construct = 'DWTForward[%d-filter] vs lowlevel.afb2d' % nf
+        anch = anchor(S, T2, 'DWTForward', 'forward')
+
+        def norm1(v):
+            yl, yh = v
+            return ops_cat5(yl, yh[0])
+
+        def norm2(v):
+            s = v.shape
+            from .. import ops
+            return ops.reshape(v, [s[0], -1, 4, s[-2], s[-1]])
+    elif which == 'sfb-module':
+        bl, ll = base_tensor('coeffs', nb, c, [H, W], extra_e=(4,))
+        inst = S.construct(T2, 'DWTInverse', wave=tuple(user_filts(nf, Lc, Lr)), mode=mode)
+        o1 = S.run(S.method(inst, 'forward'), (ll[:, :, 0], [ll[:, :, 1:]]))
+        o2 = S.run(sfb2d, ll[:, :, 0], ll[:, :, 1], ll[:, :, 2], ll[:, :, 3], user_filts(nf, Lc, Lr), mode)
+        construct = 'DWTInverse[%d-filter] vs lowlevel.sfb2d' % nf
+        anch = anchor(S, T2, 'DWTInverse', 'forward')
+        norm1 = norm2 = lambda v: v
+    elif which == 'afb-nonsep':
+        b, x = base_tensor('x', nb, c, [H, W])
+        o1 = S.run(S.get(LL, 'afb2d_nonsep'), x, user_filts(nf, Lc, Lr), mode)
+        o2 = S.run(afb2d, x, user_filts(nf, Lc, Lr), mode)
+        construct = 'afb2d_nonsep[%d-filter] vs afb2d' % nf
+        anch = anchor(S, LL, 'afb2d_nonsep')
+        norm1 = norm2 = lambda v: v
+    elif which == 'sfb-nonsep':
+        bl, ll = base_tensor('coeffs', nb, c, [H, W], extra_e=(4,))
+        o1 = S.run(S.get(LL, 'sfb2d_nonsep'), ll, user_filts(nf, Lc, Lr), mode)
+        o2 = S.run(sfb2d, ll[:, :, 0], ll[:, :, 1], ll[:, :, 2], ll[:, :, 3], user_filts(nf, Lc, Lr), mode)
+        construct = 'sfb2d_nonsep[%d-filter] vs sfb2d' % nf
+        anch = anchor(S, LL, 'sfb2d_nonsep')
+        norm1 = norm2 = lambda v: v
+    else:
+        raise ValueError(which)
+    prob = None
+    if o1.kind != 'ok' or o2.kind != 'ok':
+        if o1.kind == o2.kind == 'raises' and o1.exc.name == o2.exc.name:
+            res['sample'] = {'config': list(item), 'outcome': 'both raise %s' % o1.exc.name}
+            return res
+        bad = o1 if o1.kind != 'ok' else o2
+        side = 'first' if o1.kind != 'ok' else 'second'
+        f = exc_finding(S, bad, construct, '%s:%s:%s' % (mode, cond, side))
+        res['diff'] = 1
+        res['findings'].append(f)
+        return res
+    prob = same_tensor(norm1(o1.value), norm2(o2.value))
+    if prob:
+        res['diff'] = 1
+        res['findings'].append(finding('SIB', construct, '%s:%s:%s' % (mode, cond, _coarse(prob[0])),
+                                       'mode=%s Lcol=%d Lrow=%d HxW=%dx%d: %s' % (mode, Lc, Lr, H, W, prob[1]),
+                                       anchor=anch, detail={'config': list(item)}))
+    else:
+        res['sample'] = {'config': dict(pair=which, mode=mode, filters=nf, Lcol=Lc, Lrow=Lr, H=H, W=W),
+                         'verdict': 'identical operators'}
+    for fi in S.take_findings():
+        res['findings'].append(fi.as_dict())
+    return res
+
+
+def ops_cat5(yl, yh):
+    """(N,C,H,W) and (N,C,3,H,W) -> (N,C,4,H,W)"""
+    from .. import ops
+    return ops.cat([yl[:, :, None], yh], dim=2)
+
+
+# --------------------------------------------------------------- C13: SWT
+def w_swt(S, item):
+    mode, kind, Lc, Lr, H, W, J, nb, c = item
+    res = {'cmp': 1, 'diff': 0, 'findings': [], 'sample': None}
+    wave, roles = wave_spec(kind, Lc, Lr)
+    kw = dict(J=J, wave=wave)
+    if mode is not None:
+        kw['mode'] = mode
+    construct = 'SWTForward.forward'
+    mname = mode or 'default'
+    try:
+        inst = S.construct(T2, 'SWTForward', **kw)
+    except PyExc as e:
+        res['diff'] = 1
+        res['findings'].append(finding('RAISES', construct, '%s:constructor-raises-%s' % (mname, e.name), str(e)[:160],
+                                       anchor=anchor(S, T2, 'SWTForward', '__init__')))
+        return res
+    b, x = base_tensor('x', nb, c, [H, W])
+    o = S.run(S.method(inst, 'forward'), x)
+    if o.kind != 'ok':
+        res['diff'] = 1
+        res['findings'].append(exc_finding(S, o, construct, mname))
+        return res
+    coeffs = o.value
+    problems = []
+    th = AxisTable.identity((b.id, 0), H)
+    tw = AxisTable.identity((b.id, 1), W)
+    if not isinstance(coeffs, list) or len(coeffs) != J:
+        problems.append(('structure', 'result is not a list of %d tensors' % J))
+    else:
+        for j in range(J):
+            y = coeffs[j]
+            if not isinstance(y, DataT) or list(y.shape) != [nb, c, 4, H, W]:
+                problems.append(('shape', 'level %d has shape %s, documented (N,C,4,H,W) = %s'
+                                 % (j + 1, list(getattr(y, 'shape', [])), [nb, c, 4, H, W])))
+                break
+            rh = spec.swt_rule(H, Lc, j + 1)
+            rw = spec.swt_rule(W, Lr, j + 1)
+            loH, hiH = spec.apply_rule(th, rh, roles['col'][0]), spec.apply_rule(th, rh, roles['col'][1])
+            loW, hiW = spec.apply_rule(tw, rw, roles['row'][0]), spec.apply_rule(tw, rw, roles['row'][1])
+            bands = [(loH, loW), (hiH, loW), (loH, hiW), (hiH, hiW)]          # A, H, V, D
+            exp = {(n, ci, k): expected_cell(b, (n, ci), list(bands[k]))
+                   for n in range(nb) for ci in range(c) for k in range(4)}
+            pr = compare_cells(y, exp, 'level %d' % (j + 1))
+            if pr:
+                problems += pr
+                break
+            # shift equivariance, read off the tables: circulant along both axes
+            for idx in np.ndindex(*y.cells.shape):
+                for t in y.cells[idx]:
+                    for tb in t.tables:
+                        if not is_circulant(tb):
+                            problems.append(('not-circulant', 'level %d band %s is not shift-equivariant' % (j + 1, idx)))
+                            break
+            th, tw = loH, loW
+    if problems:
+        res['diff'] = 1
+        what, msg = problems[0]
+        res['findings'].append(finding('NF', construct, '%s:%s' % (mname, _coarse(what)),
+                                       'mode=%s Lcol=%d Lrow=%d HxW=%dx%d J=%d: %s' % (mname, Lc, Lr, H, W, J, msg),
+                                       anchor=anchor(S, LL, 'afb1d_atrous'), detail={'config': list(item)}))
+    else:
+        res['sample'] = {'config': dict(mode=mname, filters=kind, Lcol=Lc, Lrow=Lr, H=H, W=W, J=J),
+                         'verdict': 'every level equals the swt2 rule (dilation 2^(j-1), periodic) and is circulant'}
+    for fi in S.take_findings():
+        res['findings'].append(fi.as_dict())
+    return res
+
+
+def is_circulant(tb):
+    n = len(tb.forms)
+    f0 = tb.forms[0]
+    for k in range(1, n):
+        d = {(m, (p + k) % n): c for (m, p), c in f0.d.items()}
+        if len(d) != len(f0.d):
+            # positions collided after wrap: compare via accumulated dict
+            d = {}
+            for (m, p), c in f0.d.items():
+                key = (m, (p + k) % n)
+                d[key] = d.get(key, 0) + c
+        if d != tb.forms[k].d:
+            return False
+    return True
+
+
+# ------------------------------------------------------ C17: orthogonality
+def rec_to_dec(L):
+    def fn(sym):
+        r, i = sym
+        if r == role(L, 'rec_lo'):
+            return (role(L, 'dec_lo'), L - 1 - i)
+        if r == role(L, 'rec_hi'):
+            return (role(L, 'dec_hi'), L - 1 - i)
+        return sym
+    return fn
+
+
+def w_orth(S, item):
+    dim, L, size, J = item
+    mode = 'periodization'
+    res = {'cmp': 1, 'diff': 0, 'findings': [], 'sample': None}
+    if dim == 1:
+        f = S.construct(T1, 'DWT1DForward', J=J, wave=wname(L), mode=mode)
+        g = S.construct(T1, 'DWT1DInverse', wave=wname(L), mode=mode)
+        b, x = base_tensor('x', 1, 1, [size])
+        sizes = [size]
+    else:
+        f = S.construct(T2, 'DWTForward', J=J, wave=wname(L), mode=mode)
+        g = S.construct(T2, 'DWTInverse', wave=wname(L), mode=mode)
+        b, x = base_tensor('x', 1, 1, list(size))
+        sizes = list(size)
+    construct = 'DWT%sInverse vs transpose(DWT%sForward)' % (('1D', '1D') if dim == 1 else ('', ''))
+    o = S.run(S.method(f, 'forward'), x)
+    if o.kind != 'ok':
+        res['diff'] = 1
+        res['findings'].append(exc_finding(S, o, construct, 'forward'))
+        return res
+    yl, yh = o.value
+    outs = [yl] + list(yh)
+    cots, cts = [], []
+    for i, t in enumerate(outs):
+        bc = Base('c%d' % i, t.dims, dtype=t.dtype)
+        cots.append(bc)
+        cts.append(bc.tensor(origin='arg'))
+    o2 = S.run(S.method(g, 'forward'), (cts[0], cts[1:]))
+    if o2.kind != 'ok':
+        res['diff'] = 1
+        res['findings'].append(exc_finding(S, o2, construct, 'inverse'))
+        return res
+    y = o2.value
+    exp = adjoint_cells(outs, cots, b)
+    prob = None
+    if list(y.shape) != [1, 1] + sizes:
+        prob = ('shape', 'inverse returns %s for input size %s' % (list(y.shape), sizes))
+    else:
+        sub = rec_to_dec(L)
+        for idx, e in exp.items():
+            act = tuple(Term(t.base, t.bchan, [tb.subst(sub) for tb in t.tables], t.coef) for t in y.cells[idx])
+            if not cells_equal(act, e):
+                prob = classify_adj(act, e, L)
+                break
+    if prob:
+        res['diff'] = 1
+        res['findings'].append(finding('ORTH', construct, 'periodization:%s' % prob[0],
+                                       'L=%d size=%s J=%d: with rec = time-reversed dec the inverse is not the '
+                                       'transpose of the forward: %s' % (L, size, J, prob[1]),
+                                       anchor=anchor(S, LL, 'sfb1d'), detail={'config': list(item)}))
+    else:
+        res['sample'] = {'config': dict(dim=dim, L=L, size=size, J=J),
+                         'verdict': 'inverse[g = rev(h)] == transpose(forward) cell by cell'}
+    for fi in S.take_findings():
+        res['findings'].append(fi.as_dict())
+    return res
